@@ -236,8 +236,8 @@ package method_evaluator
 // whatever it appends to is an object made for this call, never a configured method type
 //@ func ti/eval/method_evaluator.checkAndPropagateArgsForUnionWithReturnT
 //@   sitesonly
-//@   callsite[C12] AppendVariant fresh(a_t)
-//@   loop 0 invariant[C12] returnT == nil || fresh(returnT)
+//@   callsite[C12,C11] AppendVariant fresh(a_t)
+//@   loop 0 invariant[C12,C11] returnT == nil || fresh(returnT)
 //@   witness site:call.0#1 "def g(w)\n  z = 2 * w\n  dbtp z\nend\na = [1, \"a\"]\na.each do |x|\n  y = x * 2\nend\n" expect "3:::Union<Integer Float String>"
 //@   witness site:call.0#0 "def g(w)\n  z = 2 * w\n  dbtp z\nend\na = [\"a\", 1]\na.each do |x|\n  y = x * 2\nend\n" expect "3:::Union<Integer Float String>"
 
